@@ -7,7 +7,7 @@ buffer lives in an exact-size heap block, so the first byte read or written outs
 exhaustive small-scope input structure (every abstract string is concretised and replayed as format AND as input on the
 tokeniser, the parsers, the formatters and all tools; every (format, buffer size) of Buf on the formatters) and the
 conformance of the tokeniser with Lex.tla (SafeTrace.tla compares token count and end offset per string)."""
-import os, re, json, select, subprocess, threading, time, collections, itertools
+import datetime, re, os, re, json, select, subprocess, threading, time, collections, itertools
 from concurrent.futures import ThreadPoolExecutor
 from vlib import core
 from checks import calcommon as cc
@@ -371,6 +371,19 @@ def main(tier):
             text = "2012-03-06 " + "y" * ll + "\n2012-03-07\n"
             jobs.append(("dconv", ["-S"], text, "very long line"))
             jobs.append(("dgrep", [">=2012-01-01"], text, "very long line"))
+        # durations with many components: the collectors grow their arrays as components arrive (every growth boundary up to 80, then powers of two)
+        for n in list(range(1, 81)) + [95, 96, 97, 127, 128, 129, 255, 256, 257, 1000]:
+            if quick and n > 20 and n % 16 not in (15, 0, 1, 2) and n not in (95, 97, 127, 129, 1000):
+                continue
+            comp = ["+1d", "+1w", "-1d", "+2d"]
+            toks = [comp[i % 4] if n % 2 else "+1d" for i in range(n)]
+            jobs.append(("dadd", ["2012-03-06"] + toks, None, "many duration components"))
+            jobs.append(("dadd", ["2012-03-06", "".join(toks)], None, "many duration components"))
+            jobs.append(("dadd", toks, "2012-03-06\n2012-03-07\n", "many duration components"))
+            jobs.append(("dadd", ["2012-03-06T10:00:00"] + [t + ("" if i % 3 else "1h") for i, t in enumerate(toks)], None, "many duration components"))
+            jobs.append(("dseq", ["2012-03-06", "".join(t.lstrip("+-") for t in toks).replace("1w", "7d"), "2014-03-06"], None, "many duration components"))
+            jobs.append(("dround", ["2012-03-06"] + ["Mon" if i % 2 else "+1d" for i in range(n)], None, "many duration components"))
+            jobs.append(("dround", ["-S"] + ["/1h" if i % 2 else "/30m" for i in range(n)], "x 2012-03-06T10:11:12 y\n", "many duration components"))
         jobs = [j for j in jobs if os.path.exists(b.tool(j[0]))]
 
         def tool_job(j):
@@ -399,6 +412,12 @@ def main(tier):
                         rep.disagree("%s %s: output is not the input lines with values replaced (NUL bytes, size or line count)" % (tool, role),
                                      {"argv": [repr(a) for a in argv], "in_bytes": len(stdin or ""), "out_bytes": len(out), "in_lines": nin, "out_lines": out.count(b"\n"),
                                       "nul": b"\0" in out, "rc": rc})
+                if role == "many duration components" and not bad and tool == "dadd" and argv[0] == "2012-03-06" and rc == 0:
+                    toks = argv[1:] if len(argv) > 2 else re.findall(r"[+-]\d+[dw]", argv[1])
+                    days = sum(int(t[:-1]) * (7 if t[-1] == "w" else 1) for t in toks)
+                    want = (datetime.date(2012, 3, 6) + datetime.timedelta(days=days)).isoformat() + "\n"
+                    if out.decode("latin-1") != want:
+                        rep.disagree("dadd many duration components: the sum of the components is not applied", {"n": len(toks), "stdout": repr(out[:60]), "want": want.strip()})
                 if role == "escaped literal" and not bad:
                     # the argv block is contiguous stack memory: a read past the terminator of the format is not a sanitizer event
                     # there, but it shows in the output, which must be the unescaped literal alone
